@@ -52,6 +52,15 @@ CHECKS = {
         "text": "flat_deadlock_free, flat_race_free, flat_all_finish (Lemmas/RWMutex.lean: any number of threads, any schedule, writer-preferring RWMutex) are instantiated by bundle_entry_points_flat (decide over the regenerated table of every exported Bundle entry point and path) to bundle_deadlock_free / bundle_race_free / bundle_all_return for goroutines running arbitrary call sequences, incl. Select-derived bundles (derived_bundles_share_guard). Partial: Go memory model, runtime mutex and pointee races via UnsafeMacaroon() are outside the model; callbacks assumed not to re-enter the bundle.",
         "note": "tie = regenerated lock traces (extractor fails closed on constructs it does not understand; reader/writer classification of the tokens methods is computed from the source plus a one-entry expectation table) + stress runs of every (entry, writer) pair with a watchdog and an all-added-tokens-present post-condition.",
     },
+    "C18": {
+        "props": "Macaroon.Props.C18",
+        "families": ["authcav"],
+        "pobs": "okdeny",
+        "technique": "Lean 4 proof (one iff per condition; 64-bit arithmetic of duration()/Time.Sub by reduction to linear integer arithmetic; mutual structural induction over nested caveat trees for GetCaveats) + differential correspondence model/Go with the wall clock bracketed",
+        "design_ref": "DESIGN.md §3 C18",
+        "text": "confineUser_iff, confineOrganization_iff, confineGoogleHD_iff, confineGitHubOrg_iff (membership in the union over ALL presented identities), no_identity_denies, other_request_denied (all five kinds -> ErrInvalidAccess) are proved for all values and requests; maxValidity_iff_wrapped (permits iff exact lifetime <= the wrapped int64 duration), maxValidity_sound (permitted => exact lifetime <= secs*10^9 in unbounded integers, for every uint64 limit), maxValidity_exact (iff when secs*10^9 < 2^63), getMaxValidity_min (minimum over all limits at any nesting depth; <= every true limit; the true minimum when none overflows; flag iff a limit exists), getMaxValidity_order_independent; the model is executed against Prohibits on discharge requests with 0-3 identities per provider and boundary limits, and against GetMaxValidity on sets with limits nested to depth 3",
+        "note": "tie is differential (family authcav); DischargeRequest.Now() is the wall clock: the request time is read just before the call, MaxValidity cases with expiry == now are discarded and counted, all other expiries are >= 2 s from the decision boundary. Limits whose true duration is not representable (secs > 9223372036) deny more than the author asked: allowed by the property text (wrapped_limit). Confine* errors wrap nothing (errors.Is(err, ErrUnauthorized) is false): modelled as leaf `confine`.",
+    },
 }
 
 # reasons for properties not claimed yet (MANIFEST.not_applicable)
